@@ -182,6 +182,17 @@ impl RetryManager {
     fn add_pending_appointments(&mut self, tower_id: TowerId, locators: HashSet<Locator>) {
         if let std::collections::hash_map::Entry::Vacant(e) = self.retriers.entry(tower_id) {
             log::debug!("Creating a new entry for tower {tower_id}");
+            // The tower may have older pending appointments that nobody is retrying (its last retrier failed for good, e.g.
+            // because a renewal was refused). The new retrier takes them along, otherwise it would flag the tower as reachable
+            // again with those still pending.
+            let mut locators = locators;
+            locators.extend(
+                self.wt_client
+                    .lock()
+                    .unwrap()
+                    .dbm
+                    .load_appointment_locators(tower_id, crate::AppointmentStatus::Pending),
+            );
             e.insert(Arc::new(Retrier::new(
                 self.wt_client.clone(),
                 tower_id,
